@@ -590,3 +590,75 @@ mod tests {
         }
     }
 }
+
+/// Verification hooks (feature `verif`): deep copy and plain-data snapshot of a pool.
+/// Add-only; nothing here is compiled without the feature.
+#[cfg(feature = "verif")]
+pub mod verif {
+    use super::*;
+
+    /// (free whole indices in pool order, free fractions of partially used indices sorted by index)
+    pub type GroupSnap = (Vec<u32>, Vec<(u32, u32)>);
+
+    #[derive(Debug, Clone, PartialEq, Eq, Hash, serde::Serialize)]
+    pub enum PoolSnap {
+        Empty,
+        Indices { full: u64, group: GroupSnap },
+        Groups { full: u64, groups: Vec<GroupSnap> },
+        Sum { full: u64, free: u64 },
+    }
+
+    fn group_snap(
+        indices: &[ResourceIndex],
+        fractions: &Map<ResourceIndex, ResourceFractions>,
+    ) -> GroupSnap {
+        let mut f: Vec<(u32, u32)> = fractions.iter().map(|(k, v)| (k.as_num(), *v)).collect();
+        f.sort_unstable();
+        (indices.iter().map(|i| i.as_num()).collect(), f)
+    }
+
+    impl ResourcePool {
+        pub fn verif_clone(&self) -> ResourcePool {
+            match self {
+                ResourcePool::Empty => ResourcePool::Empty,
+                ResourcePool::Indices(p) => ResourcePool::Indices(IndicesResourcePool {
+                    full_size: p.full_size,
+                    indices: p.indices.clone(),
+                    fractions: p.fractions.clone(),
+                }),
+                ResourcePool::Groups(p) => ResourcePool::Groups(GroupsResourcePool {
+                    full_size: p.full_size,
+                    indices: p.indices.clone(),
+                    fractions: p.fractions.clone(),
+                }),
+                ResourcePool::Sum(p) => ResourcePool::Sum(SumResourcePool {
+                    full_size: p.full_size,
+                    free: p.free,
+                }),
+            }
+        }
+
+        pub fn verif_snapshot(&self) -> PoolSnap {
+            match self {
+                ResourcePool::Empty => PoolSnap::Empty,
+                ResourcePool::Indices(p) => PoolSnap::Indices {
+                    full: p.full_size.total_fractions(),
+                    group: group_snap(&p.indices, &p.fractions),
+                },
+                ResourcePool::Groups(p) => PoolSnap::Groups {
+                    full: p.full_size.total_fractions(),
+                    groups: p
+                        .indices
+                        .iter()
+                        .zip(p.fractions.iter())
+                        .map(|(i, f)| group_snap(i, f))
+                        .collect(),
+                },
+                ResourcePool::Sum(p) => PoolSnap::Sum {
+                    full: p.full_size.total_fractions(),
+                    free: p.free.total_fractions(),
+                },
+            }
+        }
+    }
+}
